@@ -28,6 +28,15 @@ def analyse(seed):
     for g in spec['geos']:
       if g['group'] == 1:
         g['cost'] = [0.0] * len(g['cost'])
+  if spec['scenario'] == 'variable' and kind == 'plain' and r3.random() < 0.25:
+    # a credit note on a control geo on the last test day: the non-incremental cost (pre-period cost + control test cost)
+    # becomes negative -- not zero -- while every group keeps a varying spend
+    kind = 'control-credit'
+    npre_, ntest_ = spec['n_pre'], spec['n_test']
+    tot = sum(g['cost'][t] for g in spec['geos'] for t in range(npre_)) + \
+        sum(g['cost'][t] for g in spec['geos'] if g['group'] == 1 for t in range(npre_, npre_ + ntest_))
+    g0 = next(g for g in spec['geos'] if g['group'] == 1)
+    g0['cost'][npre_ + ntest_ - 1] -= float(round(tot + 500.0))
   if kind == 'spike':           # control spike on the first test date: the cumulative scale decreases afterwards
     for g in spec['geos']:
       if g['group'] == 1:
